@@ -261,6 +261,10 @@ EXEC_SCRIPTS = {
     "rotate-three-lists": "r = [1]\ng = [2, 2]\nb = [3, 3, 3]\nwhile True:\n    r, g, b = g, b, r\n    mon.write(r[0])\n    mon.write(g[0])\n    mon.write(b[0])\n    sleep(1)\n",
     "conditional-double-buffer-swap": "front = [0, 0]\nback = [5, 5]\nk = 0\nwhile True:\n    if k % 2 == 0:\n        front, back = back, front\n    front.append(k)\n    front.remove(k)\n    mon.write(front[0] + back[1])\n    k = k + 1\n    sleep(1)\n",
     "comprehension-over-range-runtime-bounds": "n = 5\nwhile True:\n    sq = [i * 2 for i in range(n)]\n    mon.write(sq[-1])\n    mon.write(sq[0])\n    sleep(1)\n",
+    "comprehension-descending-range-uneven": "while True:\n    d = [i for i in range(7, 0, -3)]\n    mon.write(len(d))\n    mon.write(d[0])\n    mon.write(d[-1])\n    e = [i * 2 for i in range(10, 1, -4)]\n    mon.write(e[-1])\n    sleep(1)\n",
+    "comprehension-range-runtime-start-stop-step": "a = 9\nb = 0\ns = -2\nwhile True:\n    d = [i + 1 for i in range(a, b, s)]\n    mon.write(d[0])\n    mon.write(d[-1])\n    a = a + 1\n    s = s - 1\n    sleep(1)\n",
+    "comprehension-ascending-steps": "lo = 1\nwhile True:\n    u = [i for i in range(lo, 12, 5)]\n    mon.write(u[0])\n    mon.write(u[-1])\n    v = [i for i in range(2, 9)]\n    mon.write(v[-1])\n    lo = lo + 1\n    sleep(1)\n",
+    "comprehension-empty-ranges": "while True:\n    e1 = [i for i in range(0)]\n    e2 = [i for i in range(5, 5)]\n    e3 = [i for i in range(3, 9, -1)]\n    e4 = [i for i in range(9, 3, 2)]\n    mon.write(len(e1) + len(e2) + len(e3) + len(e4))\n    sleep(1)\n",
     "comprehension-then-index": "while True:\n    sq = [i * i for i in range(5)]\n    mon.write(sq[4])\n    mon.write(sq[-1])\n    sleep(1)\n",
     "list-passed-through-helper-index": "xs = [4, 5, 6]\ndef at(k):\n    return xs[k]\nj = 0\nwhile True:\n    v = at(j % 3)\n    mon.write(v)\n    j = j + 1\n    sleep(1)\n",
     "remove-until-short": "xs = [1, 2, 3, 4, 5, 6, 7]\nwhile True:\n    xs.remove(xs[0])\n    mon.write(xs[0])\n    mon.write(xs[-1])\n    sleep(1)\n",
